@@ -550,8 +550,7 @@ class ProblemTable:
             ([row_top[t_idx]], rows[:, t_idx], [row_bot[t_idx]])
         )
         for i in range(rows.shape[0]):
-            rows[i, delta_idx] = temps_chain[i + 1] - temps_chain[i + 2]
-        top_adjusted[delta_idx] = temps_chain[0] - temps_chain[1]
+            rows[i, delta_idx] = temps_chain[i] - temps_chain[i + 1]
         bottom_adjusted = self._adjust_bottom_row(row_bot, rows, t_idx, delta_idx)
         self._update_heat_capacity_pairs(rows, top_adjusted, bottom_adjusted, delta_idx)
         return rows, top_adjusted, bottom_adjusted
@@ -691,7 +690,7 @@ class ProblemTable:
         T_idx = col[PT.T.value]
         delta_T_idx = col[PT.DELTA_T.value]
 
-        temps_sorted = np.sort(T_vals)
+        temps_sorted = np.sort(T_vals) if is_top_block else np.sort(T_vals)[::-1]
         block = np.full((temps_sorted.size, n_cols), np.nan, dtype=self.data.dtype)
         neighbor = row_neighbor.copy()
 
@@ -716,8 +715,9 @@ class ProblemTable:
                     block[i][delta_T_idx] = 0.0
                 else:
                     block[i-1][delta_T_idx] = block[i][delta_T_idx]
+            return block[::-1], row_neighbor
 
-        return block[::-1], row_neighbor
+        return block, row_neighbor
 
     def _initialise_insert_rows(
         self, row_top: np.ndarray, row_bot: np.ndarray, T_vals: np.ndarray
